@@ -38,6 +38,9 @@ func (r *readOnlyFile) Stat() (hackpadfs.FileInfo, error) {
 }
 
 func (r *readOnlyFile) Truncate(size int64) error {
+	if r.file.closed {
+		return r.file.closedErr("truncate")
+	}
 	return &hackpadfs.PathError{Op: "truncate", Path: r.file.path, Err: hackpadfs.ErrInvalid}
 }
 
